@@ -264,6 +264,23 @@ func checkInvalidAbsent(h *rt.H, s *runState) {
 	}
 }
 
+// safeExec runs one op.  A panic raised by the REAL code under test is an oracle failure with a concrete
+// failing input (the ops so far), not a harness crash.
+func safeExec(h *rt.H, s *runState, op string, before []string) (out string, ok bool) {
+	defer func() {
+		if r := recover(); r != nil {
+			msg := fmt.Sprint(r)
+			if strings.HasPrefix(msg, "unknown op") {
+				panic(r) // a harness/protocol bug, not the code under test
+			}
+			out, ok = "PANIC", false
+			h.OracleFail("panic", fmt.Sprintf("the real code panicked at op %q: %s", op, trunc(msg)),
+				map[string]any{"config": s.cv, "ops": append(append([]string(nil), before...), op), "panic": msg})
+		}
+	}()
+	return exec(h, s, op), true
+}
+
 func exec(h *rt.H, s *runState, op string) string {
 	w := strings.Fields(op)
 	switch w[0] {
@@ -504,10 +521,17 @@ func main() {
 		h.Case(tag)
 		s := &runState{}
 		lastOut := ""
-		for _, op := range ops {
-			out := exec(h, s, op)
+		for i, op := range ops {
+			out, ok := safeExec(h, s, op, ops[:i])
 			h.Op(op, out)
 			h.Count("op:" + strings.Fields(op)[0])
+			if !ok {
+				// the real code panicked: recorded as an oracle failure; the case ends here and the next
+				// case starts from a fresh graph (`new`)
+				h.Count("panic")
+				s.g = nil
+				break
+			}
 			if strings.HasPrefix(op, "check") {
 				lastOut = out
 			}
